@@ -135,6 +135,64 @@ def order_cases():
         yield {'name': f"inverse_of_forward_on_fresh_model|{name}", 'ok': not inv, 'detail': str(inv[:3])}
 
 
+def argument_form_cases():
+    """every model: whole-number pressures / loadings given as Python ints, integer arrays and float32 arrays answer as the
+    float call does (stand-in for the machine number formats, which the SX obligations read as reals)"""
+    from pgv.checks.models_common import DOMAIN
+    from pygaps.utilities.exceptions import CalculationError
+    import warnings
+    for name in sorted(DOMAIN):
+        m = _model(name, None, {})
+        probs = []
+        with warnings.catch_warnings():
+            warnings.simplefilter('ignore')
+            for meth, xs in (('loading', [1, 2, 3]), ('spreading_pressure', [1, 2, 3]), ('pressure', None)):
+                try:
+                    if meth == 'pressure':
+                        # whole-number loadings the model reaches: between loading(0.05) and loading(50)
+                        try:
+                            lo, hi = (float(numpy.asarray(m.loading(v), dtype=float).ravel()[0]) for v in (0.05, 50.0))
+                        except Exception:
+                            continue
+                        ints = [k for k in range(1, 40) if lo < k < hi][:3]
+                        if not ints:
+                            continue
+                        xs = ints
+                    f = getattr(m, meth)
+                    # reference: the float call, element by element (several methods are scalar-only); a method that does not
+                    # answer for floats makes no claim here
+                    try:
+                        ref = numpy.asarray([numpy.asarray(f(float(x)), dtype=float).ravel()[0] for x in xs])
+                    except Exception:
+                        continue
+                    got = numpy.asarray([numpy.asarray(f(int(x)), dtype=float).ravel()[0] for x in xs])
+                    if not numpy.allclose(got, ref, rtol=1e-7, equal_nan=True):
+                        probs.append(f"{meth}(int scalars {xs}) = {got} vs {ref} for floats")
+                    try:
+                        vec = numpy.asarray(f(numpy.asarray(xs, dtype=float)), dtype=float).ravel()
+                    except Exception:
+                        continue  # scalar-only method
+                    if vec.shape != ref.shape or not numpy.allclose(vec, ref, rtol=1e-6, equal_nan=True):
+                        continue  # (array evaluation differing from scalar evaluation is not this clause's subject)
+                    for label, arg in {'int_array': numpy.asarray(xs, dtype='int64'), 'int32_array': numpy.asarray(xs, dtype='int32')}.items():
+                        got = numpy.asarray(f(arg), dtype=float).ravel()
+                        if got.shape != ref.shape or not numpy.allclose(got, ref, rtol=1e-6, equal_nan=True):
+                            probs.append(f"{meth}({label} {xs}) = {got} vs {ref} for floats")
+                except (CalculationError, NotImplementedError):
+                    continue
+                except Exception as exc:
+                    probs.append(f"{meth}: {type(exc).__name__}: {exc}"[:160])
+        yield {'name': f"argument_form|{name}", 'ok': not probs, 'detail': '; '.join(probs[:3])}
+
+
+@replayer('c10.form')
+def _form(spec, model):
+    for r in argument_form_cases():
+        if r['name'] == spec['name']:
+            return {'confirmed': not r['ok'], 'observed': r['detail'], 'expected': 'same values as for float arguments'}
+    return {'confirmed': False, 'error': 'case not found'}
+
+
 @replayer('c10.numinv_history')
 def _numinv_history(spec, model):
     bad = [r for r in order_cases() if not r['ok'] and r['name'].endswith('|' + spec['model'])]
